@@ -1543,9 +1543,18 @@ def seq_slice(I_, seq, sl):
             if isinstance(b, bool) or not isinstance(b, (int, Sym)):
                 raise RaiseSig('TypeError')
             t = term(b)
-            return z3.If(t < 0, z3.If(n + t < 0, 0, n + t), z3.If(t > n, n, t))
+            if isinstance(b, int):
+                return z3.If(t < 0, z3.If(n + t < 0, 0, n + t), z3.If(t > n, n, t))
+            # symbolic bound: split the path so that every later term stays linear and If-free
+            st = I_.st
+            if st.branch(t < 0):
+                return z3.IntVal(0) if st.branch(n + t < 0) else n + t
+            return n if st.branch(t > n) else t
         lo_, hi_ = norm(lo, z3.IntVal(0)), norm(hi, n)
-        ln = z3.simplify(z3.If(hi_ > lo_, hi_ - lo_, 0))
+        if isinstance(lo, Sym) or isinstance(hi, Sym):
+            ln = z3.simplify(hi_ - lo_) if I_.st.branch(hi_ > lo_) else z3.IntVal(0)
+        else:
+            ln = z3.simplify(z3.If(hi_ > lo_, hi_ - lo_, 0))
         lo_ = z3.simplify(lo_)
         aff = None if seq.affine is None else z3.simplify(seq.affine + lo_)
         return SSeq(ln, lambda i, seq=seq, lo_=lo_: seq.elem(z3.simplify(i + lo_)), seq.kind,
@@ -1777,6 +1786,9 @@ def _b_tuple(I_, a, k):
 def _b_list(I_, a, k):
     if not a:
         return []
+    if isinstance(a[0], SSeq):
+        # an (unmodified) list copy of a symbolic sequence; mutation of it is not modelled
+        return SSeq(a[0].length, a[0].elem, 'list', affine=a[0].affine, const=a[0].const)
     return list(I_.iterate(a[0]))
 
 
